@@ -433,3 +433,199 @@ def _conc(x):
     if isinstance(x, SymInt):
         return x.concretise()
     return x
+
+
+# -- c-representation ranking object (C17) -----------------------------------------------------
+class CRepHarness(_Base):
+    """RandomMinCRepPreOCF on a symbolic base (c-inference preprocessing runs symbolically,
+    the impact CSP of a path is concrete and is optimised by the genuine z3)."""
+
+    CAP = 8         # a front of this size at these bounds means the enumeration does not stop
+
+    def __init__(self, N, M, mode="impacts", level="L2", keys=None, label=None):
+        ops.setup()
+        self.N, self.M, self.mode, self.level = N, M, mode, level
+        self.keys = keys or list(range(1, M + 1))
+        self.sb = ops.SymBase(N, M, 1)
+        self.vars = self.sb.vars
+        A, B, QA, QB = self.sb.tables()
+        self.QA, self.QB = QA[0], QB[0]
+        self.spec = specs.BaseSpec(A, B)
+        self.eta = [Z.Int("xeta%d" % i) for i in range(M)]
+        self.label = label or "RandomMinCRepPreOCF[%s] N=%d M=%d %s keys=%s" % (mode, N, M, level, self.keys)
+        self.reset()
+
+    def run(self, eng):
+        R = ops.R
+        import inference.preocf as po
+        from . import l2
+        conds = {}
+        for pos in range(self.M):
+            c = R["Conditional"](self.sb.side("B", pos), self.sb.side("A", pos), "c%d" % self.keys[pos])
+            c.index = self.keys[pos]
+            conds[self.keys[pos]] = c
+        bb = R["BeliefBase"](list(CTX.atom_names), conds, "sym")
+        if self.level == "L2":
+            l2.activate()
+        try:
+            if self.mode == "front":
+                import inference.c_revision as cr
+                try:
+                    front = cr.c_inference_pareto_front(bb, max_solutions=self.CAP)
+                except AssertionError as e:
+                    return ("refused", str(e)[:100])
+                return ("ok", [[int(x) for x in v] for v in front])
+            try:
+                ocf = po.PreOCF.init_random_min_c_rep(bb)
+            except AssertionError as e:
+                return ("refused", str(e)[:100])
+            if self.mode == "front":
+                pass
+            imp = [int(x) for x in ocf.save_impacts()]
+            if self.mode == "impacts":
+                return ("ok", imp)
+            if self.mode == "ranks":
+                return ("ok", imp, {world_int(k): v for k, v in ocf.compute_all_ranks().items()})
+            if self.mode == "accept-base":
+                return ("ok", imp, {k: bool(ocf.conditional_acceptance(c)) for k, c in conds.items()})
+            q = R["Conditional"](self.sb.side("QB", 0), self.sb.side("QA", 0), "q")
+            return ("ok", imp, bool(ocf.conditional_acceptance(q)))
+        except Exception as e:  # noqa: BLE001
+            if isinstance(e, symex.Inconclusive):
+                raise
+            return ("exc", type(e).__name__, str(e)[:200])
+        finally:
+            l2.deactivate()
+
+    def checks(self, res):
+        """list of (z3 condition under which the path is a violation, message)"""
+        sp = self.spec
+        acc = sp.consistent
+        if res[0] == "refused":
+            return [(acc, "construction refused a strongly consistent base")]
+        if res[0] in ("exc", "limit"):
+            return [(acc, "construction failed on a strongly consistent base: %s" % (res[1:],))]
+        if self.mode == "front":
+            front = res[1]
+            out = [(Z.Not(acc), "front enumerated for an inconsistent base")]
+            if len(front) >= self.CAP or len(set(map(tuple, front))) != len(front):
+                return out + [(acc, "Pareto-front enumeration does not terminate / repeats vectors: %s" % (front,))]
+            if not front:
+                return out + [(acc, "empty Pareto front for a consistent base")]
+            for v in front:
+                if len(v) != self.M or any(x < 0 for x in v):
+                    return out + [(acc, "front member %s is not a vector of %d non-negative integers" % (v, self.M))]
+                star = [Z.IntVal(x) for x in v]
+                out.append((Z.And(acc, Z.Not(sp.crep(star))), "front member %s is not a c-representation" % (v,)))
+                le = Z.And(*[e <= s_ for e, s_ in zip(self.eta, star)])
+                ne = Z.Or(*[e < s_ for e, s_ in zip(self.eta, star)])
+                out.append((Z.And(acc, sp.crep(self.eta), le, ne), "front member %s is not Pareto-minimal" % (v,)))
+            undominated = Z.And(*[Z.Or(*[e < x for e, x in zip(self.eta, v)]) for v in front])
+            out.append((Z.And(acc, sp.crep(self.eta), undominated), "a Pareto-minimal impact vector is missing from the front %s" % (front,)))
+            return out
+        imp = res[1]
+        out = [(Z.Not(acc), "ranking object constructed for an inconsistent base")]
+        if len(imp) != self.M or any(x < 0 for x in imp):
+            return out + [(acc, "impacts %s are not %d non-negative integers" % (imp, self.M))]
+        star = [Z.IntVal(x) for x in imp]
+        if self.mode == "impacts":
+            out.append((Z.And(acc, Z.Not(sp.crep(star))), "the ranking built from impacts %s does not accept every conditional of the base" % imp))
+            le = Z.And(*[e <= s for e, s in zip(self.eta, star)])
+            ne = Z.Or(*[e < s for e, s in zip(self.eta, star)])
+            out.append((Z.And(acc, sp.crep(self.eta), le, ne), "impacts %s are not Pareto-minimal: a smaller c-representation exists" % imp))
+        elif self.mode == "ranks":
+            for w, r in res[2].items():
+                if not isinstance(r, int):
+                    out.append((acc, "rank of world %s is %r" % (world_str(w, self.N), r)))
+                else:
+                    out.append((Z.And(acc, sp.kappa_c(star, w) != r), "rank %d of world %s is not the sum of the impacts of its falsified conditionals" % (r, world_str(w, self.N))))
+            if len(res[2]) != CTX.W:
+                out.append((acc, "not every world is ranked"))
+        elif self.mode == "accept-base":
+            for k, a in res[2].items():
+                if not a:
+                    out.append((acc, "conditional %s of the base is not accepted" % k))
+        else:
+            out.append((Z.And(acc, sp.accepts_c(star, self.QA, self.QB) != Z.BoolVal(res[2])), "acceptance verdict %s is not the rank comparison under the object's own ranking" % res[2]))
+        return out
+
+    def on_path(self, eng, res):
+        self.counts[res[0]] = self.counts.get(res[0], 0) + 1
+        for cond, msg in self.checks(res):
+            if eng.vc(cond) is not None:
+                self.record(eng, res, cond, msg)
+                break
+        self.sample(eng, res)
+
+    def replay(self, cand):
+        vars_ = cand["vars"]
+        tt.set_universe(self.N)
+        lv = ops.leafval_of(vars_)
+        base = []
+        for pos in range(self.M):
+            c = concretise.formula_tree(self.sb.side("B", pos), lv)
+            a = concretise.formula_tree(self.sb.side("A", pos), lv)
+            base.append([self.keys[pos], c, a, "(%s|%s)" % (concretise.tree_to_text(c), concretise.tree_to_text(a))])
+        qc = concretise.formula_tree(self.sb.side("QB", 0), lv)
+        qa = concretise.formula_tree(self.sb.side("QA", 0), lv)
+        job = {"atoms": list(CTX.atom_names), "steps": [{"op": "exec", "src": _CSRC, "base": base, "mode": self.mode, "q": [qc, qa], "cap": self.CAP}]}
+        out = concretise.run_real(job, timeout=45)
+        rec = dict(harness=self.label, tables=vars_, job=job, real=out, symbolic_result=cand["res"])
+        if "timeout" in out:
+            rec["observed"] = "no result within 45 s"
+            res = ("limit",)
+        elif "steps" not in out:
+            return "error", rec
+        else:
+            st = out["steps"][0]
+            if "exc" in st:
+                res = ("refused", st["exc"][1]) if st["exc"][0] == "AssertionError" else ("exc",) + tuple(st["exc"])
+            else:
+                r = st["ok"]
+                if self.mode == "ranks":
+                    r = [r[0], {world_int(k): v for k, v in r[1].items()}]
+                elif self.mode == "accept-base":
+                    r = [r[0], {int(k): v for k, v in r[1].items()}]
+                res = tuple(["ok"] + list(r))
+            rec["observed"] = _plain(res)
+        s = Z.Solver()
+        for v in self.vars:
+            s.add(v == vars_[str(v)])
+        bad = None
+        for cond, msg in self.checks(res):
+            s.push()
+            s.add(cond)
+            if s.check() == Z.sat:
+                bad = msg
+            s.pop()
+            if bad:
+                break
+        rec["expected"] = "non-negative Pareto-minimal impacts of a c-representation; ranks = sums; base accepted"
+        rec["assertion"] = bad
+        return ("confirmed" if bad else "not_reproduced"), rec
+
+
+_CSRC = '''
+from inference.belief_base import BeliefBase
+from inference.conditional import Conditional
+from inference.preocf import PreOCF
+cd = conds(st["base"])
+m = st["mode"]
+if m == "front":
+    from inference.c_revision import c_inference_pareto_front
+    result = [[[int(x) for x in v] for v in c_inference_pareto_front(BeliefBase(job["atoms"], cd, "replay"), max_solutions=st["cap"])]]
+    imp = None
+else:
+    ocf = PreOCF.init_random_min_c_rep(BeliefBase(job["atoms"], cd, "replay"))
+    imp = [int(x) for x in ocf.save_impacts()]
+if m == "front":
+    pass
+elif m == "impacts":
+    result = [imp]
+elif m == "ranks":
+    result = [imp, dict(ocf.compute_all_ranks())]
+elif m == "accept-base":
+    result = [imp, {k: bool(ocf.conditional_acceptance(c)) for k, c in cd.items()}]
+else:
+    result = [imp, bool(ocf.conditional_acceptance(Conditional(form(st["q"][0]), form(st["q"][1]), "q")))]
+'''
